@@ -28,10 +28,10 @@ from ..gen import c14_gen as G
 PROPERTY = "C14"
 LEVEL = "exploration"
 RULE = (
-    "Hypothesis-generated cases = (history spec: 3-12 commits, shapes linear/fork-merge/criss-cross/octopus(3-5 parents)/"
+    "Hypothesis-generated cases = (history spec: 4-14 commits, shapes linear/fork-merge/criss-cross/octopus(3-5 parents)/"
     "multi-root, timestamp modes, shared blobs/subtrees, annotated/lightweight/nested tags, 4 branches, "
     "pack.indexVersion None/1/2/3) x (script of 4-10 ops: advance history loose / as a new pack, pack_loose, repack, "
-    "repack(exclude=unreachable), gc, git repack -ad[b], delete branch, write commit-graph {dulwich reachable, dulwich "
+    "repack(exclude=unreachable), gc, git repack -ad[b], delete / move back a branch (by dulwich or by `git update-ref`), mark a commit shallow, query the live instance, write commit-graph {dulwich reachable, dulwich "
     "all, dulwich reachable=False, git, git --changed-paths}, write multi-pack-index {dulwich, git, git --bitmap}, "
     "generate_pack_bitmaps, pack-refs {dulwich all, dulwich tags, git}, install a foreign commit-graph/midx/bitmap, "
     "rename a bitmap to another pack, reopen).  Every case runs the query battery (lookups of all known and absent ids, "
@@ -228,6 +228,7 @@ class Exec:
         self.shallow = set()
         self.pack_sets = None
         self.pruned_ids = set()
+        self.writers = {}
         os.makedirs(self.path)
         r = Repo.init_bare(self.path)
         try:
@@ -248,6 +249,7 @@ class Exec:
 
     def wrote(self, kind, writer, foreign=False):
         self.acc[kind] = {"writer": writer, "stale": foreign, "foreign": foreign}
+        self.writers.setdefault(kind, []).append(writer)
         self.labels.add(f"acc:{kind}/{writer}")
 
     def reopen(self):
@@ -288,7 +290,9 @@ class Exec:
         return objs, refs
 
     def _note_pruning(self):
-        self.pruned_ids |= set(self.h.objs) - self.h.closure(self.refs.values())
+        # C git cuts reachability at the shallow boundary; dulwich's gc does not.  Over-approximating what may have
+        # been dropped is harmless (it is only stored again when needed).
+        self.pruned_ids |= set(self.h.objs) - self.h.closure(self.refs.values(), self.shallow)
 
     def _set_refs(self, refs):
         for name, val in refs.items():
@@ -361,10 +365,31 @@ class Exec:
             if name not in self.refs:
                 self.skipped += 1
                 return
-            del self.repo.refs[name]
+            if len(o) > 2 and o[2] == "git":  # another process deletes it (rewrites packed-refs if it was packed)
+                if not self.git(["update-ref", "-d", name.decode()]):
+                    return
+                self.labels.add("ref-changed-by-git")
+            else:
+                del self.repo.refs[name]
             del self.refs[name]
             self.stale("packed-refs", "cg", "bitmap")
             self.labels.add("ref-deleted")
+        elif kind == "moveref":
+            name = G.branch_ref(o[1])
+            cur = self.refs.get(name)
+            ps = self.h.parents_of(cur) if cur else []
+            if not ps:
+                self.skipped += 1
+                return
+            if o[2] == "git":
+                if not self.git(["update-ref", name.decode(), ps[0].decode()]):
+                    return
+                self.labels.add("ref-changed-by-git")
+            else:
+                self.repo.refs[name] = ps[0]
+            self.refs[name] = ps[0]
+            self.stale("packed-refs", "cg", "bitmap")
+            self.labels.add("ref-moved-back")
         elif kind == "cg":
             w = o[1]
             if not self.refs:
@@ -385,6 +410,8 @@ class Exec:
         elif kind == "midx":
             w = o[1]
             if not pack_basenames(self.path):
+                store.pack_loose_objects()  # an index over packs needs a pack
+            if not pack_basenames(self.path):
                 self.skipped += 1
                 return
             if w == "dulwich":
@@ -394,7 +421,10 @@ class Exec:
                     return
             if accel_files(self.path)["midx"]:
                 self.wrote("midx", w)
+                self.labels.add("midx-over-packs:%s" % min(len(pack_basenames(self.path)), 3))
         elif kind == "bitmap":
+            if not pack_basenames(self.path):
+                store.pack_loose_objects()
             if not pack_basenames(self.path) or not self.refs:
                 self.skipped += 1
                 return
@@ -510,7 +540,7 @@ class Plan:
     def __init__(self, ex: Exec):
         h = ex.h
         self.refs = dict(ex.refs)
-        self.reachable = h.closure(self.refs.values())
+        self.reachable = h.closure(self.refs.values(), ex.shallow)  # what must be present in the store
         self.unreachable = sorted(set(h.objs) - self.reachable)
         reach_sorted = sorted(self.reachable)
         commits_tags = [i for i in reach_sorted if h.objs[i][0] in (b"commit", b"tag")]
@@ -709,13 +739,24 @@ def _blame(family, key, ex: Exec, provider):
     return "none"
 
 
-def _missing_outside_pack(ex, heads, missing):
-    """Bucket refinement only: is everything the bitmap answer lacks stored outside the pack holding the heads?"""
+def _pack_sets(ex):
     from dulwich.objects import sha_to_hex
 
     if ex.pack_sets is None:
         ex.pack_sets = [{sha_to_hex(e[0]) for e in p.index.iterentries()} for p in ex.repo.object_store.packs]
-    return any(set(heads) <= ps and not (missing & ps) for ps in ex.pack_sets)
+    return ex.pack_sets
+
+
+def _missing_outside_pack(ex, heads, missing):
+    """Bucket refinement only: is everything the bitmap answer lacks stored outside the pack holding the heads?"""
+    return any(set(heads) <= ps and not (missing & ps) for ps in _pack_sets(ex))
+
+
+def _pack_lacks_ref_tips(ex, heads):
+    """Bucket refinement only: bitmaps are built for the ref tip commits; is one of them outside the heads' pack?"""
+    tips = {ex.h.peel(v) for v in ex.refs.values()}
+    tips = {t for t in tips if ex.h.objs[t][0] == b"commit"}
+    return any(set(heads) <= ps and not (tips <= ps) for ps in _pack_sets(ex))
 
 
 def _root_trees(ex, commits):
@@ -751,7 +792,19 @@ def compare_variant(ex: Exec, variant: str, acc_res, plain_res, seen_patterns, f
         if a[0] == "ok" and list(a[1]) == exp[1]:
             continue
         pat = _parents_pattern(a if a[0] != "ok" else ("ok", list(a[1])), exp)
+        if a[0] == "ok":
+            # a parent that is not in the graph at all and was dropped: the graph is not closed (one root cause);
+            # a parent that is in the graph and was dropped anyway: the writer/reader lost an edge (another)
+            dropped = [x for x in exp[1] if x not in a[1]]
+            absent = [x for x in dropped if acc_res.get(("info", "cg-parents", x), ("ok", None))[:2] == ("ok", None)]
+            if absent and all(x in exp[1] for x in a[1]):
+                pat = "parents-dropped"
         blame = _writer(ex, "cg") or "none"
+        if variant == "live" and blame in ("cg/git", "cg/foreign"):
+            # the long-lived instance may still hold the graph an earlier writer produced
+            older = [w for w in ex.writers.get("cg", []) if w.startswith("dulwich")]
+            if older:
+                blame = "cg/" + {"dulwich-all": "dulwich"}.get(older[-1], older[-1])
         if pat == "octopus-truncated-to-2" and blame == "cg/dulwich-tips":
             blame = "cg/dulwich"
         bad_families.add("parents")
@@ -790,6 +843,10 @@ def compare_variant(ex: Exec, variant: str, acc_res, plain_res, seen_patterns, f
             pat = "acc-subset"  # commits or objects: the same incomplete answer
             if provider == "BitmapReachability" and _missing_outside_pack(ex, k[2], b[1] - a[1]):
                 pat = "acc-subset:only-objects-outside-the-bitmapped-pack"
+            elif provider == "BitmapReachability" and _pack_lacks_ref_tips(ex, k[2]):
+                pat = "wrong-set:bitmapped-pack-lacks-some-ref-tip-commits"
+        elif fam == "reach" and provider == "BitmapReachability" and _pack_lacks_ref_tips(ex, k[2]):
+            pat = "wrong-set:bitmapped-pack-lacks-some-ref-tip-commits"
         elif fam in ("lookup", "graph", "reach", "reach-excl", "refs", "peeled"):
             pat = f"{k[1]}:{_pattern(a, b)}"
         else:
@@ -816,6 +873,8 @@ def compare_variant(ex: Exec, variant: str, acc_res, plain_res, seen_patterns, f
             continue  # same root cause already reported for the fresh instance
         seen_patterns.add(sig)
         tagv = ":live-instance-only" if variant == "live" else ""
+        if fam == "lookup" and pat == "packed:acc=True,plain=False":
+            tagv = ""  # a cached MIDX that was replaced on disk is trusted the same way as a stale one on disk
         bucket = f"C14:{fam}:{blame}:{pat}{tagv}"
         msg = f"[{variant}] query {_short(k, 200)}: accelerated run -> {_short(a)} ; without accelerators -> {_short(b)}"
         fails.append((bucket, msg, report_only))
@@ -850,6 +909,8 @@ def check_plain_against_model(ex: Exec, plan: Plan, res):
         if o[:2] != ("ok", exp):
             bad("parents", _tag(o), f"parents({c!r}) -> {_short(o)}, expected {exp!r}")
     for k, o in res.items():
+        if ex.shallow:
+            break  # behind a shallow boundary objects may legitimately be missing: graph answers are only compared
         if k[0] == "reach" and k[1] == "commits":
             exp = frozenset(h.commit_closure(k[2]))
             if o[:2] != ("ok", exp):
@@ -870,7 +931,7 @@ def check_plain_against_model(ex: Exec, plan: Plan, res):
             lower = upper - h.closure(known_haves)
             if not (lower <= o[1] <= upper):
                 bad("mof", "outside-bounds", f"MissingObjectFinder(haves={haves!r}, wants={wants!r}): missing {_short(sorted(lower - o[1]))}, extra {_short(sorted(o[1] - upper))}")
-        elif k[0] == "graph" and k[1] == "walk" and not k[3] and not ex.shallow:
+        elif k[0] == "graph" and k[1] == "walk" and not k[3]:
             exp = h.commit_closure(k[2])
             if o[0] != "ok" or set(o[1]) != exp or len(o[1]) != len(exp):
                 bad("walk", _tag(o), f"walker(include={k[2]!r}) -> {_short(o)}, expected the {len(exp)} ancestors")
@@ -1013,6 +1074,9 @@ def evaluate(scratch_root: str, case) -> Result:
             out.labels.add("provider:bitmap(fresh)")
         if loaded and (octopus or npacks >= 2 or any(ex.acc.get(k, {}).get("stale") for k in loaded)):
             out.nontrivial = True
+        out.labels.add("accelerators-loaded:%d" % len(loaded))
+        if not present:
+            out.labels.add("no-accelerator-file-at-end")
         if loaded and octopus and "cg" in loaded:
             out.labels.add("octopus-under-commit-graph")
         return out
@@ -1112,7 +1176,13 @@ _OCT = {"salt": 0, "idxver": None,
         "commits": [[[], 100, 0, 0], [[0], 110, 8, 1], [[0], 120, 15, 2], [[0], 130, 22, 3], [[1, 2, 3], 140, 3, 0],
                     [[4], 150, 9, 0], [[3], 155, 40, 3], [[5, 1, 2, 3], 160, 30, 0]],
         "tags": [[4, "a", 4, 0], [5, "l", 2, 1], [5, "aa", 0, 2]]}
+_LIN = {"salt": 0, "idxver": None, "commits": [[[], 100, 0, 0], [[0], 110, 8, 0], [[1], 120, 15, 0], [[2], 130, 22, 0]],
+        "tags": []}
 FIXED = [
+    # refs re-packed / changed by another process while a long-lived instance holds its packed-refs cache
+    {"spec": _LIN, "script": [("advance", 2), ("pack_refs", "git"), ("query",), ("advance", 2), ("pack_refs", "git")]},
+    {"spec": _OCT, "script": [("advance", 6), ("pack_refs", "git"), ("query",), ("delref", 3, "git"), ("moveref", 0, "git")]},
+    {"spec": _OCT, "script": [("advance", 5), ("query",), ("pack_refs", "git"), ("advance", 3), ("pack_refs", "dulwich"), ("delref", 2, "git")]},
     {"spec": _OCT, "script": [("advance", 5), ("cg", "dulwich"), ("advance", 3)]},
     {"spec": _OCT, "script": [("advance", 8), ("cg", "git"), ("pack_refs", "git"), ("delref", 2)]},
     {"spec": _OCT, "script": [("advance", 7), ("pack_loose",), ("midx", "dulwich"), ("delref", 3), ("prune",)]},
@@ -1189,9 +1259,11 @@ def run(ctx):
 def replay(ctx, check, case):
     if check != "case":
         raise HarnessError(f"unknown check {check!r}")
+    focus = case.get("focus")  # pinned known findings name the one bucket they are about
     case = {"spec": case["spec"], "script": [tuple(o) for o in case["script"]]}
     res = evaluate(ctx.scratch.path, case)
     if res.abandoned:
         return
     for b, m in res.fails:
-        ctx.fail(b, m, "case", case)
+        if focus is None or b == focus:
+            ctx.fail(b, m, "case", case)
